@@ -102,6 +102,16 @@ def sync_rule(ctx, prog):
                         good = False
             if good:
                 ctx.ok('T-SYNC', key)
+        # sync only reads the frame buffer: write_with reports `buffer.len() - 4` after it, and a later sync resumes from the stored
+        # offset into the same bytes.  Buffer mutators (resize / truncate / clear / shrink ..) and calls the analysis cannot follow
+        # are therefore violations here.
+        for o in outs:
+            bad = sorted(set(f for f in o.st.flags if f.startswith(('opaque:', 'trunc'))))
+            mut = [e for e in o.st.events if e[0] in ('RESIZE', 'PATCH', 'ENCODE', 'ENCODE_ERR')]
+            if mut:
+                ctx.violation('T-SYNC', 'buffer-mutated|%s' % start, 'sync modifies the frame buffer (%s): the length reported by write_with and the bytes a resumed sync sends would change' % [e[0] for e in mut], where)
+            elif bad:
+                ctx.violation('T-SYNC', 'opaque|%s|%s' % (start, bad[0].split('::')[-1]), 'sync goes through %s, whose effect on the writer state the analysis cannot follow' % bad[0].split(':', 1)[1], where)
         for site, rec in m.assert_sites.items():
             if rec['open'] or rec['fail']:
                 ctx.violation('T-SYNC.panic', '%s|%s|%s' % (start, rec['kind'], rec.get('op')), 'potential panic in sync (%s)' % rec['kind'], mir.loc(rec.get('sp')))
